@@ -40,9 +40,25 @@ def gen_case(rng, tier):
                 pool = W.gen_pool(rng, CFG, want, 0)  # still inside the grain-free sub-alphabet
     finally:
         cfg["alphabet"] = saved
+    # a temperature bound that differs from its twins' only in the second decimal (not equal, so
+    # not a duplicate; anything that compares rounded or formatted bounds would merge them)
+    if fmt == "naunet":
+        for ar in pool:
+            if ar["tmin"] == 10.0 and rng.random() < 0.3:
+                ar["tmin"] = 10.04
+    # the documented equality treats an unknown type as a wildcard.  That is an equivalence relation
+    # (so "duplicate" is unambiguous) as long as the reactions that agree in species and temperature
+    # range carry at most ONE known type; only otherwise the unknown ones are given a type
+    groups = {}
     for ar in pool:
-        if ar["rtype"] == W.RT_UNKNOWN:
-            ar["rtype"] = W.RT_TWOBODY
+        key = (tuple(sorted(ar["R"])), tuple(sorted(ar["P"])), ar["pseudo"], ar["tmin"], ar["tmax"])
+        groups.setdefault(key, []).append(ar)
+    for members in groups.values():
+        known = {ar["rtype"] for ar in members if ar["rtype"] != W.RT_UNKNOWN}
+        if len(known) >= 2:
+            for ar in members:
+                if ar["rtype"] == W.RT_UNKNOWN:
+                    ar["rtype"] = W.RT_TWOBODY
     assert not any(W.is_grain(x) for ar in pool for x in W.species_of(ar)), "extend cases are generated without grain species"
     opts = {
         "remove_species": [],
